@@ -136,7 +136,11 @@ func isoObserve(env *storerun.Env, tx *bbolt.Tx) []int {
 	viaBoss, _, err1 := S.People.QueryIds(tx, `anyOf(reports.name) = "odd"`)
 	viaTeam, _, err2 := S.People.QueryIds(tx, `anyOf(teams.members) = "p2"`)
 	dotted := err1 == nil && err2 == nil && (len(viaBoss) == 1 && viaBoss[0] == "p1") == odd && (len(viaTeam) == 1 && viaTeam[0] == "p2") == odd
-	consistent := odd == (v%2 == 1) && linked == odd && (len(back) == 1) == odd && dotted
+	// symbols the application computes (external symbols): every evaluation has its own result
+	first, _, err3 := S.People.QueryIds(tx, `isFirst = true and idAgain = "p1"`)
+	notFirst, _, err4 := S.People.QueryIds(tx, `isFirst = false`)
+	external := err3 == nil && err4 == nil && len(first) == 1 && first[0] == "p1" && (len(notFirst) == 1 && notFirst[0] == "p2") == odd && (len(notFirst) == 0) == !odd
+	consistent := odd == (v%2 == 1) && linked == odd && (len(back) == 1) == odd && dotted && external
 	if consistent {
 		obs = append(obs, v)
 	} else {
